@@ -43,6 +43,7 @@ def _pair_walk(n):
 
 PAIR_WALK = _pair_walk(len(RENDERERS))
 SHORT_SEQ = [0, 5, 2, 3, 0]   # to_string, to_html(names=True), to_frame, _repr_html_ (= to_html()), to_string again
+MIN_SEQ = [0, 2]              # to_string, to_frame (summaries that differ from a fully rendered one only in the ranges)
 
 
 def optimal_vertices(fba, z, limit=4):
@@ -107,6 +108,10 @@ def _check_model(net, bounds, flip, scale, stats, rich=False, origin=None):
     with warnings.catch_warnings():
         warnings.simplefilter("ignore")
         sols = [("default", None), ("fba", model.optimize())]
+        if len({next(iter(stc)) for _, stc, _, _ in rxns if len(stc) == 1}) < len(boundary):
+            # parallel boundary reactions of one metabolite: the default (pFBA) solution is not unique and the one a
+            # summary computes for itself cannot be known from outside - only given solutions are judged
+            sols = sols[1:]
         sols += [("vertex", solution_from(x)) for x in optimal_vertices(fba, z, 4 if rich else 2)]
         # a solution whose own objective_value is not the model objective at its fluxes (pFBA: total flux)
         sols.append(("given_pfba", pfba(model)))
@@ -190,7 +195,7 @@ def _check_model(net, bounds, flip, scale, stats, rich=False, origin=None):
 
                 state0 = frames()
                 first = {}
-                seq = PAIR_WALK if walk else SHORT_SEQ
+                seq = PAIR_WALK if walk else SHORT_SEQ if fname in ("none", "frame_half") else MIN_SEQ
                 text = None
                 for pos, k in enumerate(seq):
                     name, fn = RENDERERS[k]
@@ -287,7 +292,10 @@ def run_task(payload):
         net = tuple(tuple(c) for c in net)
         ids = families.rxn_ids(net)
         bnd = [i for i, c in zip(ids, net) if families.is_boundary(c)]
-        for bounds in families.bound_assignments(net, P["d"] if len(net) <= 3 else 0, P["menu"]):
+        k, n = payload.get("slice", (0, 1))
+        for j, bounds in enumerate(families.bound_assignments(net, P["d"] if len(net) <= 3 else 0, P["menu"])):
+            if j % n != k:
+                continue
             if payload.get("origins"):
                 from .. import origins
 
@@ -315,9 +323,17 @@ def explore(ctx):
     n_self = exactlp.selftest(limit=3000)
     nets = [n for n in families.networks(P["nm"], P["nr"], P["K"])
             if sum(1 for c in n if families.is_boundary(c)) >= 2]
+    # shapes that the symmetry-reduced family leaves out: several boundary reactions of one metabolite (uptake and
+    # secretion written as two reactions, a demand next to a sink, the duplicate first / in the middle / last in id order)
+    nets += [((1, 0, 0), (-1, 0, 0), (-1, 1, 0), (0, -1, 0)),
+             ((1, 0, 0), (-1, 1, 0), (0, -1, 0), (0, -1, 0)),
+             ((1, 0, 0), (0, -1, 0), (-1, 1, 0), (1, 0, 0)),
+             ((0, -1, 0), (1, 0, 0), (0, 1, 0), (-1, 1, 0), (0, -1, 0))]
     off = ctx.seed % len(nets)
     nets = nets[off:] + nets[:off]
-    payloads = [{"params": P, "nets": nets[i:i + 1], "rich": ctx.thorough} for i in range(len(nets))]
+    # (the bound assignments of one network are dealt out to six tasks: wall time is the longest task)
+    payloads = [{"params": P, "nets": nets[i:i + 1], "rich": ctx.thorough, "slice": (k, 6)} for i in range(len(nets))
+                for k in range(6)]
     # origins: three-reaction members (one boundary reaction written backwards, one with doubled coefficients), default
     # bounds, reached by every other public route
     from .. import origins
@@ -325,6 +341,7 @@ def explore(ctx):
     no = [n for n in nets if len(n) == 3]
     if ctx.tier == "quick":
         no = no[::3]
+    no += [n for n in nets if len(n) == 4][:1]
     payloads += [{"params": dict(P, d=0), "nets": no[i:i + 1], "origins": True} for i in range(len(no))]
     stats = {}
     with ctx.pool(timeout=3000) as pool:
